@@ -466,7 +466,7 @@ def d5_12(ctx):
     sym = lambda name, st=0x00C4, iid=1: {"tag_name": name, "symbol_type": st, "instance_id": iid}  # noqa: E731
     symbols = [sym("Program:MainProgram", 0x68, 10), sym("Program:Pump_Ctrl", 0x68, 11), sym("Task:MainTask", 0x70, 12), sym("Task:TaskFast", 0x70, 13), sym("Map:Local", 0x69, 14), sym("Cxn:Standard:abc", 0x7E, 15),
                sym("Local:1:I", 0x8123, 16), sym("Local:1:O", 0x8124, 17), sym("Drive:I", 0x8125, 18), sym("__hidden", 0x00C4, 19), sym("Sys:Junk:x:y", 0x00C4, 20), sym("Internal", 0x10C4, 21),
-               sym("Counter", 0x00C4, 22), sym("Flags", 0x20D3, 23), sym("Routine:Reset", 0x6D, 24)]
+               sym("Counter", 0x00C4, 22), sym("Flags", 0x20D3, 23), sym("Routine:Reset", 0x6D, 24), sym("Rack:I:Data", 0x8126, 25), sym("Rack:O:Data", 0x8127, 26), sym("Adapter:3:I:Fault", 0x8128, 27)]
 
     def hook(call, env, it):
         if attr_path(call.func) == "self._create_tag":
@@ -481,7 +481,7 @@ def d5_12(ctx):
             ctx.undecided(key, fn, f"_isolate_user_tags not foldable: {res}")
             continue
         prefix = f"Program:{program}." if program else ""
-        want_tags = [("tag", prefix + n) for n in ("Local:1:I", "Local:1:O", "Drive:I", "Counter", "Flags")]
+        want_tags = [("tag", prefix + n) for n in ("Local:1:I", "Local:1:O", "Drive:I", "Counter", "Flags", "Rack:I:Data", "Rack:O:Data", "Adapter:3:I:Fault")]
         diffs = []
         if kind != "return" or res != want_tags:
             diffs.append(f"listed {res!r} (expected {want_tags!r})")
@@ -494,10 +494,10 @@ def d5_12(ctx):
         if set(info["tasks"]) != {"MainTask", "TaskFast"}:
             diffs.append(f"tasks {sorted(info['tasks'])}")
         mods = info["modules"]
-        if set(mods) != {"Local", "Drive"} or 1 not in mods.get("Local", {}).get("slots", {}) or mods.get("Drive", {}).get("types") != ["I"]:
+        if set(mods) != {"Local", "Drive", "Rack", "Adapter"} or 1 not in mods.get("Local", {}).get("slots", {}) or mods.get("Drive", {}).get("types") != ["I"]:
             diffs.append(f"modules {mods}")  # (the per-slot type list is not part of any property and is not judged)
         ids = me._cache["tag_name:id"]
-        if ids.get(prefix + "Counter") != 22 or len(ids) != 5:
+        if ids.get(prefix + "Counter") != 22 or len(ids) != 8:
             diffs.append(f"name->id cache {ids}")
         ctx.check(not diffs, key, fn, f"symbol list classified as documented (program={program})", f"symbol classification deviates: {diffs[:3]}", program=str(program))
 
